@@ -146,6 +146,10 @@ fn c16(ctx: &VariantCtx) -> WorldOutcome {
     crate::dissem::c16_run(if ctx.tier == Tier::Thorough { 40 } else { 16 })
 }
 
+fn c17(ctx: &VariantCtx) -> WorldOutcome {
+    crate::sampworld::c17_run(if ctx.tier == Tier::Thorough { 40 } else { 12 })
+}
+
 fn c14(ctx: &VariantCtx) -> WorldOutcome {
     crate::repairworld::run(&ctx.property, if ctx.tier == Tier::Thorough { 8 } else { 4 })
 }
@@ -236,6 +240,7 @@ pub fn variants(property: &str, _tier: Tier) -> Vec<Variant> {
         "C12" => vec![Variant { name: "dissem-binding", weight: 1, max_events: 100_000, run: c12 }],
         "C13" => vec![Variant { name: "dissem-blockstore", weight: 1, max_events: 100_000, run: c13 }],
         "C16" => vec![Variant { name: "dissem-routing", weight: 1, max_events: 400_000, run: c16 }],
+        "C17" => vec![Variant { name: "sampler-callers", weight: 1, max_events: 400_000, run: c17 }],
         "C03" | "C04" | "C06" => vec![Variant { name: "pool-votes", weight: 1, max_events: 100_000, run: vw }],
         "C07" | "C08" => vec![Variant { name: "pool-certs", weight: 1, max_events: 100_000, run: kw }],
         "C18" => vec![
@@ -295,6 +300,8 @@ pub fn plan(property: &str, tier: Tier) -> Option<Plan> {
             "one case = one real Repair::repair_loop repairing one 1..K-slice block (honest or Byzantine leader, optionally with dissemination data already present) from 2-7 peers that are real RepairRequestHandlers with or without the block, silent nodes, or liars (wrong variant, aliased/wrong indices, wrong root, mutated proofs, other block's material, alternative last-flag signing, duplicates, unsolicited answers, delays) over a network with loss/duplication/stragglers until a drawn stabilisation time; checked: announced/stored block hashes to the requested id, no panic, dissemination data untouched, repair completes within 30*REPAIR_TIMEOUT after stabilisation while honest peers holding the block carry >= 30% of the peers' stake, and an honest responder answers every request shape with verifying data or a NACK; non-trivial = a liar or an honest holder took part; distinct = (roles, slices, liar fault kinds fired, outcome)"),
         "C15" => (if q { 20_000 } else { 600_000 }, if q { 90 } else { 1500 }, "exploration",
             "two variants: (1) the repair world of C14 with liars presenting aliased indices (index + k*2^height), non-last slices as last, mutated proofs; the requester must never request a slice beyond the block's true last slice; (2) trees of 1..1024 (thorough 4096) leaves incl. powers of two +-1: every created proof verifies, check_proof_last holds exactly for the last leaf, and every mutation (leaf, swapped leaf, index inside/beyond width/huge, root bit, proof element bit, proof length 0..33) must fail both verifiers without panicking; distinct = (leaf count, index, mutation classes)"),
+        "C17" => (if q { 20_000 } else { 600_000 }, if q { 120 } else { 1500 }, "exploration",
+            "one case = one validator set (1..12, thorough 1..40 validators; equal / skewed / whale-under-threshold / exact-threshold / heavy-tail stakes, optionally one validator holding exactly j/k of the stake or a zero-stake validator) and one shipped committee strategy (IID stake-weighted, IID uniform, IID Turbine-work, decaying acceptance with max_samples 1..3, partition, Fait-Accompli 1 with partition and with stake-weighted fallback, Fait-Accompli 2) with k in 1..64 seats, shared by 1-3 caller threads that each draw 1-3 committees from their own seeded random source; the callers are real threads parked at every scheduling point (hook H7 ahead of each lock acquisition of the sampler's shared counters, start and end of every call) and released one at a time by the seeded scheduler; checked: construction does not panic, quorum_size = k, every committee has exactly k members of the set, no zero-stake member, >= floor(f*k) seats per validator under the Fait-Accompli samplers, <= ceil(max_samples) seats under decaying acceptance, and every committee equals what a private instance of the same strategy returns for the same validator set and random source (function of set and random source only, whatever the other callers do); distinct = (strategy, n, k, stake family, callers, context switches, scheduling sites)"),
         "C05" => (if q { 400 } else { 20_000 }, if q { 240 } else { 1800 }, "exploration",
             "one case = one seeded cluster execution (as C01: faults, partitions, <20% Byzantine equivocating voters and leaders, several blocks per slot); every vote each correct node broadcasts is replayed in broadcast order against the voting rules: never a slashable combination with its own earlier votes, finalize only after notarizing and only for a block that has a notarization certificate, fallback votes only after an initial vote and only once the stake they require had been voted anywhere, notar only for a block whose parent is the block it notarized in the preceding slot or (window-first slot) a certified, skip-connected parent; non-trivial as C01; distinct = per-node history fingerprint"),
         "C10" => (if q { 192 } else { 12_000 }, if q { 300 } else { 1800 }, "exploration",
@@ -318,6 +325,17 @@ pub fn plan(property: &str, tier: Tier) -> Option<Plan> {
             runs, budget_s, level, rule,
             real: vec!["Repair::repair_loop / handle_response / send_request", "RepairRequestHandler::run", "BlockstoreImpl (requester and honest responders)", "PoolImpl (add_block)", "MerkleTree::check_proof / check_proof_last / create_proof", "ValidatedShred::try_new, RegularShredder"],
             stubbed: vec!["transport (SimNet) and clock (tokio paused, hook H1)", "peer choice RNG (hook H2)", "liar and silent peers are harness tasks", "the block's leader (harness shreds and signs with the leader's real key)"],
+            assumptions,
+        });
+    }
+    if property == "C17" {
+        let mut assumptions = assumptions;
+        assumptions.push("caller threads interleave only at the scheduling points of hook H7 (ahead of every acquisition of the sampler's only lock) and at call boundaries; all state shared between callers is guarded by that lock, so finer interleavings are equivalent to one of these");
+        assumptions.push("the sequential reference is the same strategy code driven by a single caller; the size/membership/seat-count guarantees are checked independently of it");
+        return Some(Plan {
+            runs, budget_s, level, rule,
+            real: vec!["every QuorumSamplingStrategy/SamplingStrategy in disseminator/rotor/sampling_strategy.rs (constructors and sampling), rand's StdRng/WeightedIndex", "real OS threads as callers sharing one sampler instance"],
+            stubbed: vec!["the thread scheduler: callers are parked at scheduling points and released one at a time by the seeded scheduler", "Rotor / the simulations binary as callers (replaced by harness caller threads)"],
             assumptions,
         });
     }
@@ -352,7 +370,7 @@ pub fn classify_panic(p: &PanicRecord, checked: &str) -> (String, String) {
     let site = p.location.rsplit('/').next().unwrap_or(&p.location).to_string();
     // component worlds call the code under test directly: a panic there is a failure of the
     // property the world decides (e.g. a disseminator that cannot be constructed for some stakes)
-    if matches!(checked, "C16" | "C11" | "C12" | "C13" | "C15" | "C19") {
+    if matches!(checked, "C16" | "C17" | "C11" | "C12" | "C13" | "C15" | "C19") {
         return (checked.to_string(), format!("panic:{site}"));
     }
     if p.message.contains("consensus safety violation") {
